@@ -52,7 +52,11 @@ pub fn gen_sched(rng: &mut Rng) -> SchedPlan {
    SchedPlan::Gen { seed, mode }
 }
 
-pub fn programs_tagged(tag: &str) -> Vec<&'static ProgramDef> { registry().iter().filter(|p| p.has_tag(tag)).collect() }
+pub fn programs_tagged(tag: &str) -> Vec<&'static ProgramDef> {
+   // development aid: VSIM_ONLY_TAG restricts the corpus (e.g. to the generated programs)
+   let only = std::env::var("VSIM_ONLY_TAG").ok();
+   registry().iter().filter(|p| p.has_tag(tag) && only.as_ref().map_or(true, |t| p.has_tag(t))).collect()
+}
 
 pub fn gen_input_ops(def: &ProgramDef, rng: &mut Rng) -> (String, Vec<Op>) {
    let (gname, g) = *rng.pick(&def.gens);
